@@ -46,7 +46,13 @@ def close_rat(x, n, d):
     return abs(x * d - n) <= REL_TOL * max(abs(n), abs(d), 1)
 
 
+def _is_any(e):
+    return isinstance(e, list) and len(e) == 2 and e[1] == -1
+
+
 def _leaf_ok(kind, x, e):
+    if _is_any(e) or (kind == "ssqrt" and _is_any(e[1])):
+        return True
     if kind == "num":
         return close_rat(x, e[0], e[1])
     if kind == "sqrt":
